@@ -94,6 +94,7 @@ structure Conf where    -- stored confirm: key (object nonce, oracle address), v
 structure Ghost where   -- history of a record (never read by the code paths)
   sent : Nat := 0       -- transferred oracle account → delegate address by bond / add-delegate
   undel : Nat := 0      -- undelegated by governance removal (→ unbonding entries)
+  reon : Bool := false  -- came back online through AddDelegate after a governance removal (known-finding history class)
   deriving DecidableEq, Repr
 
 inductive Kind where | os | batch | call
@@ -290,7 +291,7 @@ def addDelegate (s : State) (o amt : Nat) : State × Res :=
                                      startHeight := if r.online then r.startHeight else s.height, slashTimes := 0 }
         let g := (Store.get s2.gh o).getD {}
         (refreshPower { s2 with oracles := Store.set s2.oracles o r',
-                                 gh := Store.set s2.gh o { g with sent := g.sent + dcoin } }, .ok)
+                                 gh := Store.set s2.gh o { g with sent := g.sent + dcoin, reon := g.reon || decide (g.undel > 0) } }, .ok)
 
 /-- `ReDelegate` -/
 def reDelegate (s : State) (o v : Nat) : State × Res :=
